@@ -172,19 +172,24 @@ pub struct St {
     pub calc: bool,
     pub jit: Option<(P, Option<F>, u8)>,
     pub cl: Option<(P, Option<F>, u8)>,
+    /// the VM had been compiled when the current program was loaded and nothing was compiled
+    /// explicitly since: executing compiled code must fail - or run the *current* program, if the
+    /// implementation recompiles when it loads (the property only forbids running the old one)
+    pub jit_implicit: bool,
+    pub cl_implicit: bool,
     pub offs: u8,
     pub hist: Vec<Act>,
 }
 
 impl PartialEq for St {
     fn eq(&self, o: &St) -> bool {
-        self.created == o.created && self.kind == o.kind && self.prog == o.prog && self.verifier == o.verifier && self.helper == o.helper && self.calc == o.calc && self.jit == o.jit && self.cl == o.cl && self.offs == o.offs
+        self.created == o.created && self.kind == o.kind && self.prog == o.prog && self.verifier == o.verifier && self.helper == o.helper && self.calc == o.calc && self.jit == o.jit && self.cl == o.cl && self.jit_implicit == o.jit_implicit && self.cl_implicit == o.cl_implicit && self.offs == o.offs
     }
 }
 impl Eq for St {}
 impl Hash for St {
     fn hash<H: Hasher>(&self, h: &mut H) {
-        (self.created, self.kind, self.prog, self.verifier, self.helper, self.calc, self.jit, self.cl, self.offs).hash(h)
+        (self.created, self.kind, self.prog, self.verifier, self.helper, self.calc, self.jit, self.cl, self.jit_implicit, self.cl_implicit, self.offs).hash(h)
     }
 }
 
@@ -195,6 +200,8 @@ pub enum Exp {
     Err,
     /// any of these values
     Val(Vec<u64>),
+    /// an error, or else what the inner expectation says
+    ErrOr(Box<Exp>),
     /// not specified (e.g. a configuration the property does not speak about): not compared
     Any,
     /// not specified at all, a panic included: compiling a program that only a permissive
@@ -248,9 +255,12 @@ fn value(p: P, helper: Option<F>, kind: K, offs: u8, calc: bool, pkt: &[u8], eng
                 Exp::Err // offsets (0,8): the buffer is 16 bytes, 0x40 is outside
             }
         }
+        // R and S read a slot of the fixed VM's internal buffer that is not a pointer slot. What a
+        // freshly (re)loaded VM holds there is not specified (zero today); the property is that it does
+        // not depend on the history: the expectation is whatever a VM that has done nothing else returns
         P::S => {
             if kind == K::Fixed && offs == 3 {
-                Exp::Val(vec![0])
+                Exp::Val(vec![fresh_fixed_value(P::S, offs)])
             } else {
                 Exp::Any
             }
@@ -259,14 +269,42 @@ fn value(p: P, helper: Option<F>, kind: K, offs: u8, calc: bool, pkt: &[u8], eng
             if kind != K::Fixed || offs == 2 || offs == 3 {
                 Exp::Any // a raw address (the packet pointer) or not a metadata VM
             } else {
-                Exp::Val(vec![0])
+                Exp::Val(vec![fresh_fixed_value(P::R, offs)])
             }
         }
     }
 }
 
+/// What program `p` returns on a fixed-metadata VM created with it under offset pair `offs` and
+/// executed once - measured on the implementation, once per (program, offsets).
+fn fresh_fixed_value(p: P, offs: u8) -> u64 {
+    static CACHE: OnceLock<Mutex<std::collections::HashMap<(P, u8), u64>>> = OnceLock::new();
+    let c = CACHE.get_or_init(|| Mutex::new(std::collections::HashMap::new()));
+    if let Some(v) = c.lock().unwrap().get(&(p, offs)) {
+        return *v;
+    }
+    let (a, b) = OFFS[offs as usize];
+    let mut pkt = PKT1;
+    let v = AnyVm::new(VmKind::Fixed(a, b), Some(prog_bytes(p))).ok().and_then(|mut vm| vm.exec(Eng::Interp, (pkt.as_mut_ptr(), pkt.len()), vm::empty_raw()).ok()).unwrap_or(0);
+    c.lock().unwrap().insert((p, offs), v);
+    v
+}
+
 fn uses_helper(p: P) -> bool {
     p == P::H
+}
+
+/// Program O (a local call out of the program, in dead code) is loadable only under a permissive
+/// verifier, and no property says that it must load even then (an implementation may validate call
+/// targets in a later stage): a refusal is accepted, and the successor is then the unchanged state -
+/// which the probe checks like after any other failed set_program.
+fn loading_o_may_fail(s: &St, a: Act, n: St, exp: Exp, obs: &Obs) -> (St, Exp) {
+    if let (Act::SetProgram(P::O, _), Exp::Ok, Obs::Err(_)) = (a, &exp, obs) {
+        let mut u = s.clone();
+        u.hist = n.hist.clone();
+        return (u, Exp::Any);
+    }
+    (n, exp)
 }
 
 /// Abstract transition: successor state and expected observation.
@@ -294,6 +332,8 @@ pub fn step(s: &St, a: Act) -> (St, Exp) {
                 n.prog = Some(p);
                 n.offs = o;
                 // compiled code belongs to the previous program: it must not run any more
+                n.jit_implicit = s.jit.is_some() || s.jit_implicit;
+                n.cl_implicit = s.cl.is_some() || s.cl_implicit;
                 n.jit = None;
                 n.cl = None;
                 Exp::Ok
@@ -328,6 +368,7 @@ pub fn step(s: &St, a: Act) -> (St, Exp) {
             Some(p) if uses_helper(p) && s.helper.is_none() => Exp::Err,
             Some(p) => {
                 n.jit = Some((p, s.helper, s.offs));
+                n.jit_implicit = false;
                 Exp::Ok
             }
         },
@@ -337,6 +378,7 @@ pub fn step(s: &St, a: Act) -> (St, Exp) {
             Some(p) if uses_helper(p) && s.helper.is_none() => Exp::Err,
             Some(p) => {
                 n.cl = Some((p, s.helper, s.offs));
+                n.cl_implicit = false;
                 Exp::Ok
             }
         },
@@ -350,8 +392,32 @@ pub fn step(s: &St, a: Act) -> (St, Exp) {
     (n, exp)
 }
 
+/// Would compiling program p (helper h registered) succeed, as far as the properties say?
+fn compilable(p: P, h: Option<F>, eng: Eng) -> Option<bool> {
+    match (p, eng) {
+        (P::X, _) => Some(false),
+        (P::O, Eng::Jit) => None,
+        (P::L | P::O, Eng::Cl) => Some(false),
+        (p, _) if uses_helper(p) && h.is_none() => Some(false),
+        _ => Some(true),
+    }
+}
+
 fn exec_compiled(s: &St, c: Option<(P, Option<F>, u8)>, eng: Eng, pkt: &[u8]) -> Exp {
+    let implicit = if eng == Eng::Jit { s.jit_implicit } else { s.cl_implicit };
     match c {
+        None if implicit => {
+            // nothing was compiled since the current program was loaded over compiled code: an error,
+            // or the current program's result if loading recompiled it (helper bound then or now)
+            match (s.prog, s.prog.and_then(|p| compilable(p, s.helper, eng))) {
+                // (a helper is bound when the code is generated: at load time, which the state does not
+                // remember - either helper's value is accepted)
+                (Some(p), _) if uses_helper(p) => Exp::ErrOr(Box::new(Exp::Val(vec![fval(F::F), fval(F::G)]))),
+                (Some(p), Some(true)) => Exp::ErrOr(Box::new(value(p, s.helper, s.kind, s.offs, s.calc, pkt, eng))),
+                (Some(_), None) => Exp::Unspecified,
+                _ => Exp::Err,
+            }
+        }
         None => Exp::Err,
         Some((p, hf, _o)) => {
             // compiled code binds the helpers registered at compile time (documented); if the
@@ -456,6 +522,8 @@ fn matches(exp: &Exp, obs: &Obs) -> Option<&'static str> {
     match (exp, obs) {
         (Exp::Unspecified, _) => None,
         (_, Obs::Panic(_)) => Some("panic"),
+        (Exp::ErrOr(_), Obs::Err(_)) => None,
+        (Exp::ErrOr(e), o) => matches(e, o),
         (Exp::Any, _) => None,
         (Exp::Ok, Obs::Ok) => None,
         (Exp::Ok, Obs::Val(_)) => None,
@@ -590,7 +658,7 @@ impl Model for ApiModel {
     type Action = Act;
 
     fn init_states(&self) -> Vec<St> {
-        vec![St { created: false, kind: K::Raw, prog: None, verifier: V::Default, helper: None, calc: false, jit: None, cl: None, offs: 0, hist: vec![] }]
+        vec![St { created: false, kind: K::Raw, prog: None, verifier: V::Default, helper: None, calc: false, jit: None, cl: None, jit_implicit: false, cl_implicit: false, offs: 0, hist: vec![] }]
     }
 
     fn actions(&self, s: &St, out: &mut Vec<Act>) {
@@ -654,6 +722,7 @@ impl Model for ApiModel {
         // conformance: replay the history on a real VM, apply the action, compare
         let (mut real, obs) = rebuild(&n.hist);
         let obs = obs.unwrap();
+        let (n, exp) = loading_o_may_fail(s, a, n, exp, &obs);
         if let Some(sym) = matches(&exp, &obs) {
             self.findings.lock().unwrap().push(Finding {
                 sig: format!("api/{}/{sym}", act_name(a)),
@@ -677,6 +746,7 @@ impl Model for ApiModel {
             for a2 in next {
                 let (n2, exp2) = step(&n, a2);
                 let (mut real2, obs2) = rebuild(&n2.hist);
+                let (n2, exp2) = loading_o_may_fail(&n, a2, n2, exp2, obs2.as_ref().unwrap());
                 self.probes.fetch_add(1, Ordering::Relaxed);
                 if n2.created && !matches!(a2, Act::Exec | Act::ExecJit | Act::ExecCl) {
                     // and the state reached that way must behave as the model says (an execution
@@ -830,9 +900,12 @@ pub fn run(s: &mut Sink) {
         let threads = 8;
         let (m, unique, total, depth) = run_model(cfg_for(tier, part), threads);
         // determinism (the model must be a function of the abstract state): run again, compare
-        let (m2, unique2, _total2, _d2) = run_model(cfg_for(tier, part), threads);
-        if unique != unique2 || m.transitions.load(Ordering::Relaxed) != m2.transitions.load(Ordering::Relaxed) {
-            s.violation("harness/api/nondeterministic-state-space", format!("two runs explored {unique}/{unique2} states"), json!({"kind":"none"}));
+        // (thorough tier; the quick tier explores once)
+        if tier == Tier::Thorough {
+            let (m2, unique2, _total2, _d2) = run_model(cfg_for(tier, part), threads);
+            if unique != unique2 || m.transitions.load(Ordering::Relaxed) != m2.transitions.load(Ordering::Relaxed) {
+                s.violation("harness/api/nondeterministic-state-space", format!("two runs explored {unique}/{unique2} states"), json!({"kind":"none"}));
+            }
         }
         s.count("states", unique as u64);
         s.count("transitions", m.transitions.load(Ordering::Relaxed));
